@@ -216,4 +216,147 @@ def redoStamps : List Rec → List Int
     | .process => if r.out.queued ≠ [] then r.stamp :: redoStamps rs else redoStamps rs
     | _ => redoStamps rs
 
+/-! ## the same definitions over an arbitrary time type
+
+`Tick τ` is what the code needs of a time value: `+`, `≤`, `0 <`, `abs`.  The definitions below repeat
+`Timer`, `Exch`, `create`, `send`, `process`, `start`, `step`, `run` word for word with `τ` for `Int`;
+`Lemmas/Exchange.lean` proves that their `Int` instantiation *is* the model above (`gstep_int`), and the
+driver runs their `Float` (IEEE binary64 = CPython `float`) instantiation for schedules off the dyadic
+grid.  The class attributes `Timeout` / `RedoTimeout` are a parameter (`defs`). -/
+
+class Tick (τ : Type) where
+  add : τ → τ → τ
+  le : τ → τ → Bool
+  pos : τ → Bool
+  abs : τ → τ
+
+instance : Tick Int := ⟨fun a b => a + b, fun a b => decide (a ≤ b), fun a => decide (0 < a), iabs⟩
+instance : Tick Float := ⟨fun a b => a + b, fun a b => decide (a ≤ b), fun a => decide (0.0 < a), Float.abs⟩
+
+structure GTimer (τ : Type) where
+  start : τ
+  duration : τ
+  stop : τ
+
+structure GExch (τ : Type) where
+  kind : Kind
+  timeout : τ
+  timer : GTimer τ
+  redoTimeout : τ
+  redoTimer : GTimer τ
+  tx : Option Nat
+  rx : Option Nat
+  done : Bool
+  failed : Bool
+  acked : Bool
+
+variable {τ : Type} [Tick τ]
+
+def GTimer.new (stamp duration : τ) : GTimer τ :=
+  ⟨Tick.abs stamp, Tick.abs duration, Tick.add (Tick.abs stamp) (Tick.abs duration)⟩
+
+def GTimer.restart (t : GTimer τ) (stamp : τ) : GTimer τ := ⟨stamp, t.duration, Tick.add stamp t.duration⟩
+
+def GTimer.expired (t : GTimer τ) (stamp : τ) : Bool := Tick.le t.stop stamp
+
+def gcreate (defs : Kind → τ × τ) (v : Variant) (k : Kind) (stamp : τ) (timeout redo : Option τ)
+    (tx rx : Option Nat) : Except Err (GExch τ) :=
+  let t := match timeout with | some x => x | none => (defs k).1
+  match v, redo with
+  | .asIs, some _ => .error .nameError
+  | _, _ =>
+    let r := match redo with | some x => x | none => (defs k).2
+    .ok { kind := k, timeout := t, timer := GTimer.new stamp t, redoTimeout := r,
+          redoTimer := GTimer.new stamp r, tx := tx, rx := rx,
+          «done» := false, failed := false, acked := false }
+
+def gsend (e : GExch τ) (tx : Option Nat) : GExch τ × Out :=
+  let e := match tx with | some m => { e with tx := some m } | none => e
+  match e.tx with
+  | none => (e, ⟨[], some .valueError⟩)
+  | some m => (e, ⟨[m], none⟩)
+
+def gfail (e : GExch τ) : GExch τ := { e with failed := true, «done» := true }
+
+def gprocess (stamp : τ) (e : GExch τ) : GExch τ × Out :=
+  if Tick.pos e.timeout && e.timer.expired stamp then
+    (gfail e, ⟨[], none⟩)
+  else if Tick.pos e.redoTimeout && e.redoTimer.expired stamp then
+    let e := { e with redoTimer := e.redoTimer.restart stamp }
+    match e.tx with
+    | some _ => gsend e e.tx
+    | none => (e, ⟨[], none⟩)
+  else (e, ⟨[], none⟩)
+
+def gprepStart (e : GExch τ) : GExch τ := { e with «done» := false, failed := false, acked := false }
+
+def gstart (stamp : τ) (e : GExch τ) (arg : Option Nat) : GExch τ × Out :=
+  match e.kind with
+  | .exchange => (gprepStart e, ⟨[], none⟩)
+  | .exchanger =>
+    let e := gprepStart e
+    let e := { e with timer := e.timer.restart stamp, redoTimer := e.redoTimer.restart stamp }
+    gsend e arg
+  | .exchangent =>
+    let e := gprepStart e
+    let e := { e with timer := e.timer.restart stamp, redoTimer := e.redoTimer.restart stamp }
+    let e := match arg with | some r => { e with rx := some r } | none => e
+    match e.rx with
+    | none => (e, ⟨[], some .valueError⟩)
+    | some _ => ({ e with «done» := true }, ⟨[], none⟩)
+
+inductive GOp (τ : Type) where
+  | create (k : Kind) (timeout redo : Option τ) (tx rx : Option Nat)
+  | start (arg : Option Nat)
+  | advance (dt : τ)
+  | process
+  | send (via : Via) (tx : Option Nat)
+  | receive (rx : Nat)
+  | finish
+  | fail
+  | run
+
+structure GWorld (τ : Type) where
+  stamp : τ
+  ex : Option (GExch τ)
+  queue : List Nat
+
+def GWorld.call (w : GWorld τ) (f : GExch τ → GExch τ × Out) : GWorld τ × Out :=
+  match w.ex with
+  | none => (w, ⟨[], some .noExchange⟩)
+  | some e =>
+    let (e', o) := f e
+    ({ w with ex := some e', queue := w.queue ++ o.queued }, o)
+
+def gstep (defs : Kind → τ × τ) (v : Variant) (w : GWorld τ) : GOp τ → GWorld τ × Out
+  | .create k t r tx rx =>
+    match gcreate defs v k w.stamp t r tx rx with
+    | .ok e => ({ w with ex := some e }, ⟨[], none⟩)
+    | .error err => ({ w with ex := none }, ⟨[], some err⟩)
+  | .start arg => w.call (fun e => gstart w.stamp e arg)
+  | .advance dt => ({ w with stamp := Tick.add w.stamp dt }, ⟨[], none⟩)
+  | .process => w.call (gprocess w.stamp)
+  | .send _ tx => w.call (fun e => gsend e tx)
+  | .receive rx => w.call (fun e => ({ e with rx := some rx }, ⟨[], none⟩))
+  | .finish => w.call (fun e => ({ e with «done» := true }, ⟨[], none⟩))
+  | .fail => w.call (fun e => (gfail e, ⟨[], none⟩))
+  | .run => w.call (fun e => ({ e with «done» := true }, ⟨[], none⟩))
+
+/-- a history over the generic definitions: final world and what each call did -/
+def grun (defs : Kind → τ × τ) (v : Variant) : GWorld τ → List (GOp τ) → GWorld τ × List Out
+  | w, [] => (w, [])
+  | w, op :: ops =>
+    let (w', o) := gstep defs v w op
+    let (w'', os) := grun defs v w' ops
+    (w'', o :: os)
+
+/-- the class attributes in ticks of 1/1024 s (as `Kind.defTimeout`, `Kind.defRedo`) -/
+def defsInt (k : Kind) : Int × Int := (k.defTimeout, k.defRedo)
+
+/-- the class attributes as the floats of the source: `Exchange`/`Exchanger` 2.0 / 0.5, `Exchangent` 0.5 / 0.1 -/
+def defsFloat : Kind → Float × Float
+  | .exchangent => (0.5, 0.1)
+  | _ => (2.0, 0.5)
+
+
 end Ioflo.Exchange
